@@ -479,7 +479,10 @@ func (e *Eng) ghostInit(g GhostDecl, st *State, symbolic bool) Val {
 	case strings.HasPrefix(g.Type, "map["):
 		i := strings.Index(g.Type, "]")
 		ks, vs := ghostSort(g.Type[4:i]), ghostSort(g.Type[i+1:])
-		zero := map[string]string{"Bool": "false", "Int": "0", "Str": "str.empty"}[vs]
+		if e.bv && (g.Type[i+1:] == "byte" || g.Type[i+1:] == "uint8") {
+			vs = "(_ BitVec 8)"
+		}
+		zero := map[string]string{"Bool": "false", "Int": "0", "Str": "str.empty", "(_ BitVec 8)": "(_ bv0 8)"}[vs]
 		v = Val{K: KGMap, GKey: ks, GVal: vs}
 		if symbolic && g.Init == "" {
 			v.T = e.newSym("ghost."+g.Name, "(Array "+ks+" "+vs+")")
